@@ -14,7 +14,7 @@ class SharedTimedMutex : public SharedMutex {
 
   template <typename Rep, typename Period>
   bool try_lock_for(const std::chrono::duration<Rep, Period>& timeout_duration) {
-    return TimedWaitHelper(timeout_duration, true);
+    return TimedWaitHelper(timeout_duration + SystemClock::now(), true);
   }
 
   template <typename Clock, typename Duration>
@@ -24,7 +24,7 @@ class SharedTimedMutex : public SharedMutex {
 
   template <typename Rep, typename Period>
   bool try_lock_shared_for(const std::chrono::duration<Rep, Period>& timeout_duration) {
-    return TimedWaitHelper(timeout_duration, false);
+    return TimedWaitHelper(timeout_duration + SystemClock::now(), false);
   }
 
   template <typename Clock, typename Duration>
@@ -36,7 +36,7 @@ class SharedTimedMutex : public SharedMutex {
   template <typename Timeout>
   bool TimedWaitHelper(const Timeout& timeout, bool exclusive) {
     bool r = true;
-    if (_occupied && (exclusive || _exclusive_mode)) {
+    while (r && _occupied && (exclusive || _exclusive_mode)) {
       if (exclusive) {
         r = _exclusive_queue.Wait(timeout) == WaitStatus::Ready;
       } else {
@@ -45,7 +45,11 @@ class SharedTimedMutex : public SharedMutex {
     }
     YACLIB_DEBUG(r && _occupied && (exclusive || _exclusive_mode), "about to be locked twice and not in a good way");
     if (r) {
-      SharedLockHelper();
+      if (exclusive) {
+        LockHelper();
+      } else {
+        SharedLockHelper();
+      }
     }
     return r;
   }
